@@ -189,7 +189,7 @@ func c15SlotsCurrent(c *config, u c15User, kind, history string, touched []strin
 		bad = true
 		o.Fail("operands_current", "", msg, det(extra))
 	}
-	ops := u.Operands()
+	ops := c15Ops(c, u)
 	cells := c15CellAddrs(u)
 	// one slot per cell of this struct, each slot a cell of this struct
 	cellAt := map[*value.Value]string{}
@@ -303,7 +303,7 @@ func c15SlotsCurrent(c *config, u c15User, kind, history string, touched []strin
 func c15History(c *config, u c15User, kind string) {
 	o := c.out
 	oc, msg := guard(func() error {
-		_ = u.Operands() // an earlier traversal
+		_ = c15Ops(c, u) // an earlier traversal
 		before, _ := c15Print(u)
 		// by-value copies: the usual clone (slices copied), then a copy whose operands are all assigned anew
 		for _, mode := range []string{"clone", "fresh"} {
